@@ -2550,7 +2550,13 @@ int set_call (object_t * ob, sentence_t * sent, int flags) {
     }
 
   if (flags & I_SINGLE_CHAR)
-    set_telnet_single_char (ob->interactive, 1);
+    {
+      set_telnet_single_char (ob->interactive, 1);
+      /* characters typed ahead (a partial line) are a complete command in single-char mode:
+       * flag them now, otherwise they wait until more input arrives */
+      if (ob->interactive && cmd_in_buf (ob->interactive))
+        ob->interactive->iflags |= CMD_IN_BUF;
+    }
   return 1;
 }				/* set_call() */
 
